@@ -122,8 +122,17 @@ static void stage_corpus(Run &R) {
     for (const Bytes &l : corpus_lines(R.a.datadir)) { if ((int) (i++ % R.a.nworkers) != R.a.worker) continue; if (!run_one(R, l, dm)) return; if (!run_one(R, l, 0x7ff)) return; R.count("corpus-lines"); }
 }
 
+#ifndef VF_FUZZ
 int main(int argc, char **argv) {
     return std_main(argc, argv, "C01", {{"bounded", stage_bounded}, {"lengths", stage_lengths}, {"random", stage_random}, {"corpus", stage_corpus}},
         [](Run &R, const Case &c) { return check_one(R, c.getb("addr"), (int) c.geti("mask")); }, [] { return g_case; },
         [](Run &R) { K_ = new Core(&dflt_api); return K_->init(R.a.datadir); }, [] { delete K_; });
 }
+#else
+VF_FUZZ_TARGET("C01", [](Run &R) { K_ = new Core(&dflt_api); return K_->init(R.a.datadir); },
+    [](Run &R, const uint8_t *d, size_t n) -> std::optional<Failure> {
+        if (n < 2) return std::nullopt;
+        int mask = (d[n - 1] | (d[n - 2] << 8)) % 2048; if (d[n - 1] & 0x80) mask = K_->default_mask();
+        Bytes a = fuzz_bytes(d, n - 2); R.sample("fuzz", show(a.substr(0, 80)), 4);
+        return check_one(R, a, mask); })
+#endif
